@@ -412,6 +412,164 @@ def path_value(pth, e, al):
 
 
 
+def _compose_rel_chain(prog, M, ox, call, v):
+    """Compose `add_rel(<args>)` -> `CT_Relationship.new(...)` -> attribute stores.  With `call` (the add_rel call in the writer)
+    and `v` (the relationship variable) the arguments are those of the call; with call None, add_rel is taken with symbolic
+    arguments named after its parameters (the flag parameter case-split).  Returns (True, None) when, in every case, the element's
+    rId / reltype / target_ref / targetMode are the relationship's rId, reltype, target_ref and External-iff-external;
+    (False, why) on an established difference; (None, why) when a step is not understood."""
+    import copy as _copy
+
+    from sa import paths as P_
+    from sa.desugar import desugar as _desugar
+
+    ctr = ox.classes.get("CT_Relationship")
+    ctrs = ox.classes.get("CT_Relationships")
+    ar = prog.lookup(ctrs, "add_rel")
+    newf = prog.lookup(ctr, "new")
+    if ar is None or newf is None:
+        raise AnalysisError("anchor vanished: CT_Relationships.add_rel / CT_Relationship.new")
+
+    def params(f):
+        a = f.node.args
+        ps = [x.arg for x in a.args][1:] + [x.arg for x in a.kwonlyargs]
+        dflt = {}
+        pos = [x.arg for x in a.args]
+        for p_, d_ in zip(pos[len(pos) - len(a.defaults):], a.defaults):
+            dflt[p_] = d_
+        for p_, d_ in zip([x.arg for x in a.kwonlyargs], a.kw_defaults):
+            if d_ is not None:
+                dflt[p_] = d_
+        return ps, [x.arg for x in a.args][1:], dflt
+
+    def bind(f, c):
+        ps, pos, dflt = params(f)
+        out = dict(dflt)
+        for p_, a_ in zip(pos, c.args):
+            out[p_] = a_
+        for k_ in c.keywords:
+            if k_.arg is None:
+                return None
+            out[k_.arg] = k_.value
+        return out if all(p_ in out for p_ in ps) else None
+
+    def sev(e, env):
+        """('sym', text) | ('bool', b) | ('mode', 'EXTERNAL'|'INTERNAL') | ('unk', text)"""
+        d = dotted(e)
+        if d is not None:
+            if d in env:
+                return env[d]
+            if d.split(".")[-1] in ("EXTERNAL", "INTERNAL") and len(d.split(".")) > 1:
+                return ("mode", d.split(".")[-1])
+            return ("sym", d)
+        if isinstance(e, ast.Constant) and e.value in ("External", "Internal"):
+            return ("mode", e.value.upper())
+        if isinstance(e, ast.Constant) and isinstance(e.value, bool):
+            return ("bool", e.value)
+        if isinstance(e, ast.IfExp):
+            t = sev(e.test, env)
+            if t[0] == "bool":
+                return sev(e.body if t[1] else e.orelse, env)
+            return ("unk", ast.unparse(e))
+        if isinstance(e, ast.UnaryOp) and isinstance(e.op, ast.Not):
+            t = sev(e.operand, env)
+            return ("bool", not t[1]) if t[0] == "bool" else ("unk", ast.unparse(e))
+        if isinstance(e, ast.Compare) and len(e.ops) == 1 and isinstance(e.ops[0], (ast.Eq, ast.NotEq, ast.Is, ast.IsNot)):
+            l, r = sev(e.left, env), sev(e.comparators[0], env)
+            if l[0] == r[0] == "mode":
+                return ("bool", (l[1] == r[1]) == isinstance(e.ops[0], (ast.Eq, ast.Is)))
+        if isinstance(e, ast.Call) and dotted(e.func) in ("str", "cast", "typing.cast") and e.args and not e.keywords:
+            return sev(e.args[-1], env)     # the value itself
+        if isinstance(e, ast.Call) and dotted(e.func):
+            # a function of the value(s) is stored, not the value: reported as what it is
+            subs = [sev(a_, env) for a_ in e.args]
+            if all(x[0] != "unk" for x in subs):
+                return ("sym", "%s(%s)" % (dotted(e.func), ", ".join(str(x[1]) for x in subs)))
+        return ("unk", ast.unparse(e))
+
+    # stage C: CT_Relationship.new stores its parameters
+    p_new, _, _ = params(newf)
+    stores = {}
+    for n in ast.walk(newf.node):
+        if isinstance(n, ast.Assign) and isinstance(n.targets[0], ast.Attribute) and isinstance(n.value, ast.Name):
+            stores[n.targets[0].attr] = n.value.id
+        elif isinstance(n, ast.Call) and dotted(n.func) == "setattr" and len(n.args) == 3 and isinstance(n.args[1], ast.Constant) \
+                and isinstance(n.args[2], ast.Name):
+            stores[n.args[1].value] = n.args[2].id
+    decl = {d.prop: d.attr for d in M.own_decls(ctr)[1]}
+    want_attr = {"rId": "Id", "reltype": "Type", "target_ref": "Target", "targetMode": "TargetMode"}
+    if set(stores) != set(want_attr) or any(decl.get(k) != want_attr[k] for k in want_attr) or any(v_ not in p_new for v_ in stores.values()):
+        if set(stores) >= set(want_attr) or not stores:
+            pass
+        return (False, "new: stores=%s attrs=%s" % (stores, {k: decl.get(k) for k in stores})) if stores else (None, "new: no attribute stores found")
+
+    arx = _desugar(ar.node)
+    aal = P_.aliases(arx)
+    p_ar, _, _ = params(ar)
+    flagp = p_ar[3] if len(p_ar) > 3 else None
+    if flagp is None:
+        return None, "add_rel has fewer than four parameters"
+    cases = []
+    if call is not None:
+        bound = bind(ar, call)
+        if bound is None:
+            return None, "the arguments of add_rel(...) do not bind to its parameters %s" % p_ar
+        for b in (True, False):
+            envA = {v + ".is_external": ("bool", b)}
+            cases.append((b, {p_: sev(e_, envA) for p_, e_ in bound.items()},
+                          {"rId": ("sym", v + ".rId"), "reltype": ("sym", v + ".reltype"), "target_ref": ("sym", v + ".target_ref")}))
+    else:
+        # symbolic caller: the first three by name; the fourth a flag, or a target mode when add_rel hands it on unchanged
+        base = {p_: ("sym", p_) for p_ in p_ar}
+        flag_tested = any(isinstance(n, (ast.If, ast.IfExp)) and flagp in {x.id for x in ast.walk(n.test) if isinstance(x, ast.Name)}
+                          for n in ast.walk(ar.node))
+        for b in (True, False):
+            e_ = dict(base)
+            e_[flagp] = ("bool", b) if flag_tested else ("mode", "EXTERNAL" if b else "INTERNAL")
+            cases.append((b, e_, {"rId": ("sym", p_ar[0]), "reltype": ("sym", p_ar[1]), "target_ref": ("sym", p_ar[2])}))
+    for b, envB, want3 in cases:
+        unk = [p_ for p_, x in envB.items() if x[0] == "unk"]
+        if unk:
+            return None, "argument for `%s` not evaluated: %s" % (unk[0], envB[unk[0]][1])
+        n_new = 0
+        for pth in P_.enum_paths(arx.body):
+            fs = P_.facts(pth, None, aal)
+            infeasible = False
+            for a_ in fs:
+                if a_[0] == "truthy" and a_[1] in envB:
+                    x = envB[a_[1]]
+                    if x[0] == "bool" and x[1] != a_[2]:
+                        infeasible = True
+                    elif x[0] != "bool":
+                        return None, "add_rel tests `%s`, which the caller does not pass as a flag" % a_[1]
+            if infeasible:
+                continue
+            env = dict(envB)
+            stmts = pth.stmts() + ([pth.end_node] if pth.end_node is not None else [])
+            for st in stmts:
+                for c2 in [x for x in ast.walk(st) if isinstance(x, ast.Call) and (dotted(x.func) or "").endswith("CT_Relationship.new")
+                           or (isinstance(x, ast.Call) and dotted(x.func) in ("cls.new", "CT_Relationship.new"))]:
+                    n_new += 1
+                    bn = bind(newf, c2)
+                    if bn is None:
+                        return None, "the arguments of CT_Relationship.new(...) do not bind to its parameters"
+                    got = {attr: sev(bn[par], env) for attr, par in stores.items()}
+                    want = dict(want3)
+                    want["targetMode"] = ("mode", "EXTERNAL" if b else "INTERNAL")
+                    for k_ in want:
+                        if got[k_][0] == "unk":
+                            return None, "%s of the element not evaluated: %s" % (k_, got[k_][1])
+                        if got[k_] != want[k_]:
+                            return False, "for an %s relationship %s of the element is %s, expected %s" % (
+                                "external" if b else "internal", want_attr[k_], got[k_][1], want[k_][1])
+                if isinstance(st, ast.Assign) and len(st.targets) == 1 and isinstance(st.targets[0], ast.Name):
+                    env[st.targets[0].id] = sev(st.value, env)
+        if n_new == 0:
+            return None, "no CT_Relationship.new(...) on add_rel's paths"
+    return True, None
+
+
+
 def canon_target_key(prog, src):
     """`<rel>.target_partname(<base>)` written as `PackURI.from_rel_ref(<base>, <rel>.target_ref)` when CT_Relationship.target_partname
     is exactly that (an accessor extracted onto the element class)."""
@@ -792,7 +950,11 @@ def run(ctx):
         loop, c = add_calls[-1]
         args = [dotted(a_) for a_ in c.args]
         v = (args[0] or "").rsplit(".", 1)[0] if args and args[0] else None
-        fields = bool(v) and args == [v + ".rId", v + ".reltype", v + ".target_ref", v + ".is_external"]
+        # the element's four attributes as functions of the relationship `v`, composed through add_rel and CT_Relationship.new
+        # (whatever the signatures in between are): Id = v.rId, Type = v.reltype, Target = v.target_ref, TargetMode = External
+        # exactly when v.is_external
+        comp_ok, comp_why = (None, "no relationship variable") if not v else _compose_rel_chain(prog, M, ox, c, v)
+        fields = comp_ok is True
         # where does the relationship object come from?
         src = None
         if fields:
@@ -818,9 +980,12 @@ def run(ctx):
                         and dotted(asg[0].value.slice) in tnames_:
                     src = whole_source(loop.iter)
                     want = KEYS
-        if not fields:
+        if comp_ok is None:
+            ctx.error("_Relationships.xml", "how a relationship reaches the attributes of its element is not decided: %s" % comp_why)
+        elif not fields:
             ctx.violation("R1.3", "_Relationships.xml", "a relationship is not serialised with its own (rId, reltype, target_ref, is_external): "
-                          "add_rel(%s)" % ", ".join(ast.unparse(a_) for a_ in c.args), file=xmlp.file, line=c.lineno)
+                          "add_rel(%s): %s" % (", ".join(ast.unparse(a_) for a_ in c.args + [k_.value for k_ in c.keywords]), comp_why),
+                          file=xmlp.file, line=c.lineno)
         elif src is None:
             ctx.error("_Relationships.xml", "origin of the serialised relationship `%s` not recognised" % v)
         elif src["lossy"]:
@@ -835,47 +1000,21 @@ def run(ctx):
             ctx.error("_Relationships.xml", "serialised relationships are drawn from `%s`, which is not recognised as the whole collection" % src["terminal"])
     ar = ctrs.methods.get("add_rel")
     newf = ctr.methods.get("new")
-    p_ar = [a.arg for a in ar.node.args.args][1:]
-    from sa.desugar import desugar as _desugar
-
-    arx = _desugar(ar.node)
-    aal = P_.aliases(arx)
-    ins = [c for c in ast.walk(arx) if isinstance(c, ast.Call) and (dotted(c.func) or "").startswith("self._insert_relationship")]
-    good, n_new = bool(ins), 0
-    for pth in P_.enum_paths(arx.body):
-        for c in [c for st in pth.stmts() + ([pth.end_node] if pth.end_node is not None else []) for c in ast.walk(st)
-                  if isinstance(c, ast.Call) and dotted(c.func) == "CT_Relationship.new"]:
-            n_new += 1
-            args_ = [path_value(pth, a_, aal) for a_ in c.args]
-            fs = P_.facts(pth, None, aal)
-            ext = P_.implied(fs, lambda a_: a_[0] == "truthy" and a_[1] == p_ar[3] and a_[2] is True)
-            inn = P_.implied(fs, lambda a_: a_[0] == "truthy" and a_[1] == p_ar[3] and a_[2] is False)
-            want_tm = "RTM.EXTERNAL" if ext else "RTM.INTERNAL" if inn else None
-            if len(args_) == 4 and isinstance(c.args[3], ast.IfExp) and dotted(c.args[3].test) == p_ar[3]:
-                # the choice written in place: CT_Relationship.new(..., EXTERNAL if is_external else INTERNAL)
-                if (dotted(c.args[3].body), dotted(c.args[3].orelse)) != ("RTM.EXTERNAL", "RTM.INTERNAL") or args_[:3] != p_ar[:3]:
-                    good = False
-            elif args_ != [p_ar[0], p_ar[1], p_ar[2], want_tm]:
-                good = False
-    good = good and n_new > 0
-    if good:
-        ctx.ok("R1.3", "CT_Relationships.add_rel", sample={"target_mode": "External iff is_external", "new": "CT_Relationship.new(rId, reltype, target, target_mode)"})
-    else:
-        ctx.violation("R1.3", "CT_Relationships.add_rel", "add_rel does not build the element from its four arguments with External iff "
-                      "is_external", file=ar.file, line=ar.line)
-    p_new = [a.arg for a in newf.node.args.args][1:]
-    stores = {}
-    for n in ast.walk(newf.node):
-        if isinstance(n, ast.Assign) and isinstance(n.targets[0], ast.Attribute) and isinstance(n.value, ast.Name):
-            stores[n.targets[0].attr] = n.value.id
     decl = {d.prop: d for d in M.own_decls(ctr)[1]}
     attr_names = {p: decl[p].attr for p in decl}
-    want = dict(zip(["rId", "reltype", "target_ref", "targetMode"], p_new))
-    if stores == want and attr_names == {"rId": "Id", "reltype": "Type", "target_ref": "Target", "targetMode": "TargetMode"}:
-        ctx.ok("R1.3", "CT_Relationship.new", sample={"stores": stores, "attributes": attr_names})
+    # the chain add_rel -> CT_Relationship.new on its own, for an arbitrary caller: with the external flag (or the target mode)
+    # a caller hands in, the element gets exactly those four values
+    ok_t, why_t = _compose_rel_chain(prog, M, ox, None, None)
+    if ok_t is True:
+        ctx.ok("R1.3", "CT_Relationships.add_rel", sample={"target_mode": "External iff is_external", "new": "CT_Relationship.new(rId, reltype, target, target_mode)"})
+        ctx.ok("R1.3", "CT_Relationship.new", sample={"attributes": attr_names})
+    elif ok_t is None:
+        ctx.error("CT_Relationships.add_rel", "add_rel / CT_Relationship.new not decided: %s" % why_t)
     else:
-        ctx.violation("R1.3", "CT_Relationship.new", "the four values are not stored in Id / Type / Target / TargetMode (stores=%s attrs=%s)"
-                      % (stores, attr_names), file=newf.file, line=newf.line)
+        where_ = "CT_Relationship.new" if why_t.startswith("new:") else "CT_Relationships.add_rel"
+        ctx.violation("R1.3", where_, ("the four values are not stored in Id / Type / Target / TargetMode (%s)" % why_t) if where_.endswith(".new")
+                      else "add_rel does not build the element from its four arguments with External iff is_external (%s)" % why_t,
+                      file=(newf if where_.endswith(".new") else ar).file, line=(newf if where_.endswith(".new") else ar).line)
     # schema agreement
     try:
         sattrs = {a.name for a in S.attrs_of(S.elem_type(prog.qn("pr:Relationship")))}
@@ -909,6 +1048,10 @@ def run(ctx):
     fxx = _expand(prog, fxr, local_only=True)
     fal = P_.aliases(fxx)
     fpar = [a.arg for a in fxr.node.args.args]
+    if len(fpar) < 4:
+        # the rule reads from_xml(cls, base_uri, rel, parts); another interface (say, one object carrying base URI and part map)
+        # is an analysis gap, not a counter-fact
+        raise AnalysisError("_Relationship.from_xml%s: parameters (base_uri, rel, parts) not recognised" % (tuple(fpar),))
     bp, rp, pp = fpar[1], fpar[2], fpar[3]
     ip_ = [a.arg for a in rinit.node.args.args][1:]
     fields_ok = all(stored_from_param(rinit, "_" + p) == p for p in ip_) and ip_ == ["base_uri", "rId", "reltype", "target_mode", "target"]
